@@ -1,7 +1,7 @@
 (* C02 - Mapper errors are precise and a failed call changes no mapping.
    About the abstract tree model (Paging/Tree.v), which the correspondence check ties to the
    three mapper implementations on whole call histories. *)
-From X86 Require Import Paging.Mapped Paging.Tree Paging.TreeProofs Paging.Refine Paging.RefineAtomic Paging.MemAtomic Paging.Run.
+From X86 Require Import Paging.Mapped Paging.Tree Paging.TreeProofs Paging.Refine Paging.RefineAtomic Paging.MemAtomic Paging.Recursive Paging.RecRead Paging.RecEquiv Paging.Run.
 Open Scope Z_scope.
 
 (* which outcome map_to reports is decided by the state it is called in *)
@@ -107,3 +107,34 @@ Theorem C02_failed_parent_flag_call_returns_the_state_unchanged : forall s k lev
   is_error (snd (set_flags_parent s k level page flags)) -> fst (set_flags_parent s k level page flags) = s.
 Proof. exact set_flags_parent_error_unchanged. Qed.
 Print Assumptions C02_failed_parent_flag_call_returns_the_state_unchanged.
+
+(* "identically across mapper implementations", on the memory models: with the recursive slot
+   pointing to the level-4 table and the other level-4 slots representing a tree (repx), the
+   RecursivePageTable model -- which reaches every lower table through recursive addresses
+   resolved by the hardware-style walk -- computes for unmap / update_flags /
+   set_flags_p*_entry / translate_page exactly the result AND the memory the MappedPageTable
+   model computes, for every page outside the recursive slot *)
+Theorem C02_recursive_unmap_is_mapped_unmap : forall s ch k page,
+  0 <= k <= 2 -> 0 <= rec_index s < 512 -> repx (rec_index s) s ch -> p4_index page <> rec_index s ->
+  runmap s k page = Ok (unmap s k page).
+Proof. exact runmap_eq. Qed.
+Print Assumptions C02_recursive_unmap_is_mapped_unmap.
+
+Theorem C02_recursive_update_flags_is_mapped_update_flags : forall s ch k page flags,
+  0 <= k <= 2 -> 0 <= rec_index s < 512 -> repx (rec_index s) s ch -> p4_index page <> rec_index s ->
+  rupdate_flags s k page flags = Ok (update_flags s k page flags).
+Proof. exact rupdate_flags_eq. Qed.
+Print Assumptions C02_recursive_update_flags_is_mapped_update_flags.
+
+Theorem C02_recursive_parent_flag_calls_are_mapped_ones : forall s ch k level page flags,
+  2 <= level <= 4 -> 0 <= k <= 2 -> 0 <= rec_index s < 512 -> repx (rec_index s) s ch ->
+  p4_index page <> rec_index s ->
+  rset_flags_parent s k level page flags = Ok (set_flags_parent s k level page flags).
+Proof. exact rset_flags_parent_eq. Qed.
+Print Assumptions C02_recursive_parent_flag_calls_are_mapped_ones.
+
+Theorem C02_recursive_translate_page_is_mapped_translate_page : forall s ch k page,
+  0 <= k <= 2 -> 0 <= rec_index s < 512 -> repx (rec_index s) s ch -> p4_index page <> rec_index s ->
+  rtranslate_page s k page = Ok (s, translate_page s k page).
+Proof. exact rtranslate_page_eq. Qed.
+Print Assumptions C02_recursive_translate_page_is_mapped_translate_page.
